@@ -484,3 +484,31 @@ def pipeline_scene(rng, quick=True):
     if rng.random() < 0.6:
         cfg["slab"] = {"lo": [lo[0], lo[1], c[2]], "hi": [hi[0], hi[1], c[2] + 1], "eps": rng.choice([2.0, 4.0]), "mu": rng.choice([1.0, 1.5])}
     return cfg
+
+
+# ------------------------------------------------------------------ shared check pipeline (run.py calls mod.run(ctx))
+def pipeline(mod, ctx):
+    """run.py's default pipeline plus evidence that counts what a record contains (a record = one configuration with
+    many exact runs / tolerance monitors) and trimmed samples."""
+    import json
+
+    from lib.worker import pmap
+
+    mod.model_check(ctx)
+    inputs = list(mod.gen_cases(ctx))
+    recs = pmap(mod.__name__, "observe", inputs, procs=getattr(mod, "PARALLEL", 4), mode="thread")
+    for r in recs[:1] + [x for x in recs if not x.get("exact")][:1]:
+        s = {k: v for k, v in r.items() if k not in ("runs", "ie2", "im2", "loss")}
+        s["runs"] = r.get("runs", [])[:1]
+        s["n_runs"] = len(r.get("runs", []))
+        ctx.sample(s)
+    ctx.nontrivial = len({json.dumps(c, sort_keys=True, default=str) for c in inputs})
+    modes = {}
+    for c in inputs:
+        modes[c.get("mode", "?")] = modes.get(c.get("mode", "?"), 0) + 1
+    ctx.extra_cov["configurations_by_mode"] = modes
+    ctx.extra_cov["exact_runs_validated_by_tlc"] = sum(len(r.get("runs", [])) for r in recs)
+    ctx.extra_cov["tolerance_monitors_validated_by_tlc"] = sum(len(r.get("mons", [])) for r in recs)
+    ctx.extra_cov["largest_monitor_value_1e-13"] = max([abs(m["d"]) for r in recs for m in r.get("mons", [])] or [0])
+    ctx.extra_cov["tolerance_1e-13"] = max([r.get("tol", 0) for r in recs] or [0])
+    ctx.validate(*mod.TRACE, recs, {c["id"]: c for c in inputs}, classify=getattr(mod, "classify", None), chunk=getattr(mod, "CHUNK", 400))
